@@ -28,6 +28,7 @@ type pxCase struct {
 	AddResp  string   `json:"addresp"`
 	UpAE     string   `json:"upae"`
 	State    string   `json:"state"`
+	Penc     bool     `json:"penc"`
 }
 
 type pxReq struct {
@@ -72,7 +73,7 @@ func ProxyXform(w *world.World, raws []json.RawMessage) ([]interface{}, error) {
 	lname := func(c *pxCase) string {
 		return fmt.Sprintf("%s-%s-%s-%s-%s", c.Rewrite, c.AddReq, c.AddQuery, c.AddResp, c.UpAE)
 	}
-	for _, rw := range []string{"none", "strip", "chain"} {
+	for _, rw := range []string{"none", "strip", "chain", "nomatch"} {
 		for _, ar := range []string{"none", "xadded", "via"} {
 			for _, aq := range []string{"none", "kv"} {
 				for _, ap := range []string{"none", "xresp", "vary"} {
@@ -89,6 +90,9 @@ func ProxyXform(w *world.World, raws []json.RawMessage) ([]interface{}, error) {
 						}
 						if rw == "strip" {
 							lc.Rewrites = []string{"/api/*:/$1"}
+						}
+						if rw == "nomatch" {
+							lc.Rewrites = []string{"/other/*:/$1"}
 						}
 						if rw == "chain" {
 							lc.Rewrites = []string{"/api/*:/v1/$1", "/v1/*:/$1"}
@@ -160,8 +164,14 @@ func ProxyXform(w *world.World, raws []json.RawMessage) ([]interface{}, error) {
 			if via == nil {
 				via = []string{}
 			}
-			q.up = map[string]interface{}{"contacts": 1, "method": req.Method, "path": req.URL.Path, "query": toks, "inm": inm, "ims": ims,
+			q.up = map[string]interface{}{"contacts": 1, "method": req.Method, "path": req.URL.EscapedPath(), "query": toks, "inm": inm, "ims": ims,
 				"range": rg, "ae": ae, "via": via, "xclient": hv("X-Client"), "xadded": hv("X-Added"), "bodyOk": string(body) == q.body}
+		}
+		if q.phase == "spacer" {
+			// another resource of the same size
+			hs := http.Header{}
+			hs.Set("Cache-Control", "no-cache")
+			return world.Outcome{Kind: "raw", Header: hs, Status: 200, Body: []byte(strings.Repeat("#", len(pxBody)))}
 		}
 		h := http.Header{}
 		h.Set("Etag", `"v1"`)
@@ -201,6 +211,9 @@ func ProxyXform(w *world.World, raws []json.RawMessage) ([]interface{}, error) {
 			qs = append(qs, pxTokens[t])
 		}
 		uri := "/api/res"
+		if c.Penc {
+			uri = "/api/re%2Fs"
+		}
 		if len(qs) > 0 {
 			uri += "?" + strings.Join(qs, "&")
 		}
@@ -243,6 +256,8 @@ func ProxyXform(w *world.World, raws []json.RawMessage) ([]interface{}, error) {
 		}
 		client := map[string]interface{}{"status": r.Status, "bodyFull": string(r.Body) == pxBody, "bodyPartial": string(r.Body) == pxBody[:2],
 			"xresp": r.Header.Get("X-Resp"), "vary": vary, "xup": r.Header.Get("X-Up"), "label": r.Label}
+		// another resource crosses the proxy before the second client asks
+		w.DoBody("", hname, "GET", "spacer.test", "/api/spacer", plain(), &pxReq{c: c, phase: "spacer"}, "")
 		n := w.DoBody("", hname, c.M, host, uri, plain(), &pxReq{c: c, phase: "next"}, "")
 		next := map[string]interface{}{"status": n.Status, "bodyFull": string(n.Body) == pxBody, "label": n.Label}
 		out = append(out, map[string]interface{}{"case": raw, "i": i, "up": q.up, "client": client, "next": next})
